@@ -6,7 +6,7 @@ from .values import *
 from .engine import *
 from . import spec as S
 
-Occ = z3.Function('Occ', z3.StringSort(), z3.StringSort(), z3.IntSort(), z3.BoolSort())
+Occ = S.OccP
 
 
 def occ_def(T_, s, p):
@@ -146,6 +146,9 @@ def isinstance_(I, v, cls):
 
 
 def isinstance1(I, v, cname):
+    if isinstance(v, VPat):
+        r = isinstance1(I, v.payload, cname)
+        return z3.And(v.is_text(), S._b(r)) if cname != 'type' else z3.Not(v.is_text())
     if isinstance(v, VOpt):
         r = isinstance1(I, v.inner, cname)
         return z3.And(z3.Not(v.isnone), S._b(r))
@@ -337,7 +340,7 @@ def str_method(I, self, meth, args, kwargs, fr, node):
     ctx = I.ctx
     s = self
     if meth in ('find', 'rfind', 'index'):
-        sub = args[0]
+        sub = I.unopt(args[0], 'find argument')
         if not isinstance(sub, VStr) or sub.kind != s.kind:
             ctx.oblige('safe.find-type', False, 'safe')
             I.raise_exc('TypeError')
@@ -456,6 +459,8 @@ def symlist_method(I, self, meth, args, kwargs):
         n = h.fields['len'].t
         newc = []
         for (arr, ty), x in zip(comps, vals):
+            if isinstance(x, VPat):
+                x = I.unopt(x, 'list element')
             if isinstance(x, VOpt) or not hasattr(x, 't'):
                 raise Unsupported('symlist.append component %r' % (x,))
             if x.t.sort() != sort_of(ty):
